@@ -66,7 +66,7 @@ def gen_case(rng, idx):
     kind = rng.choice(["log", "log", "repeated", "cluster"])
     # "identity-*" / "view-fn" return their INPUT array (or a view of it): z aliases r inside the solver
     pre = rng.choice([None, None, "spd", "spd", "jacobi", "identity-linop", "identity-fn", "view-fn"])
-    form = rng.choice(["linop", "function"])
+    form = rng.choice(["linop", "function", "function", "function-buffer"])
     mi = rng.choice([1, 2, n, n + 3])
     tolk = rng.choice(["zero", "zero", "pos"])
     x0k = rng.choice(["zero", "random"])
@@ -169,6 +169,9 @@ def corpus_cases():
         out.append(dict(base, n=3, max_iter=2, npseed=30 + k, pre=pre, cplx=True, form="function"))
         out.append(dict(base, n=4, max_iter=1, npseed=40 + k, pre=pre))
     out.append(dict(base, n=5, max_iter=8, npseed=50, alias_xb=True))
+    # A returns the same buffer on every call
+    out.append(dict(base, n=5, max_iter=7, npseed=58, form="function-buffer", x0k="random"))
+    out.append(dict(base, n=4, max_iter=5, npseed=59, form="function-buffer", cplx=True, pre="spd"))
     # 2-D iterates in layouts that cannot be flattened as a view: the updates must still land in the caller's array
     out.append(dict(base, n=6, max_iter=6, npseed=55, form="function", x0k="random", layout2d=dict(shape=[2, 3], kind="volume-slice")))
     out.append(dict(base, n=8, max_iter=9, npseed=56, form="function", cplx=True, pre="spd", layout2d=dict(shape=[2, 4], kind="T-view")))
@@ -253,6 +256,15 @@ def run_impl(sp, c, arrays=None):
     elif c["form"] == "linop":
         Aop = sp.linop.MatMul([n, 1], A)
         Pop = None if P is None else sp.linop.MatMul([n, 1], P)
+    elif c["form"] == "function-buffer":
+        # A writes its result into ONE array it owns and hands that array back on every call (a common way to avoid allocations):
+        # whatever the solver keeps must be its own copy
+        abuf = np.zeros((n, 1), dtype=np.result_type(A.dtype, x0.dtype))
+
+        def Aop(v):
+            np.matmul(A, v, out=abuf)
+            return abuf
+        Pop = None if P is None else (lambda v: P @ v)
     else:
         Aop = lambda v: A @ v                         # noqa: E731   (fresh array every call)
         Pop = None if P is None else (lambda v: P @ v)
